@@ -60,6 +60,8 @@ package executor
 //@   option intmode=math
 //@   requires this != nil && this.logger != nil && context != nil
 //@   requires [ctx!init] has(context, "situation") && istype(context["situation"], string) && has(context, "refund") && istype(context["refund"], RefundMap) && unbox(context["refund"], RefundMap) != nil
+//@   ensures [conserve] result0 && header != nil && transaction != nil && transaction.Sign != nil ==> exists k Bytes :: ghost(schedtotal) - old(ghost(schedtotal)) == (old(@select(ghost(mstake), k)) - @select(ghost(mstake), k)) * 1000000000000000000 && (forall j Bytes :: j != k ==> @select(ghost(mstake), j) == old(@select(ghost(mstake), j)))
+//@   ensures [unchanged] !result0 ==> ghost(schedtotal) == old(ghost(schedtotal)) && ghost(mstake) == old(ghost(mstake))
 //@   ensures [scheduled] result0 && header != nil && transaction != nil && transaction.Sign != nil ==> exists h uint64 :: has(unbox(context["refund"], RefundMap), h) && schedHas(unbox(context["refund"], RefundMap)[h].List, hexBytes(transaction.Source))
 
 // ---------------------------------------------------------------------------------------------
